@@ -11,6 +11,7 @@ import (
 	"fmt"
 	"math/rand"
 	"os"
+	"regexp"
 	"sort"
 	"strings"
 	"time"
@@ -29,6 +30,7 @@ func init() { cmds["replay-layout"] = replayLayout }
 
 type specRow struct {
 	S  string   `json:"s"`
+	M  string   `json:"m"` // measurement ("" = "m")
 	T  int64    `json:"t"`
 	Fs []string `json:"fs"`
 	V  int64    `json:"v"`
@@ -36,8 +38,16 @@ type specRow struct {
 
 type specObs struct {
 	S string           `json:"s"`
+	M string           `json:"m"`
 	T int64            `json:"t"`
 	V map[string]int64 `json:"v"`
+}
+
+func mstOr(m string) string {
+	if m == "" {
+		return "m"
+	}
+	return m
 }
 
 type specStep struct {
@@ -53,6 +63,52 @@ type layoutCase struct {
 	Hist     []specStep `json:"hist"`
 	Crash    bool       `json:"crash"`     // C03: freeze a crash image after every fs mutation of each reorganisation
 	NoSettle bool       `json:"no_settle"` // do not wait for background loads (directed reproduction of F-C04-1)
+	// directed reproduction of a known finding: forced concretisation, and the contents the finding's deviation
+	// model predicts after the named step
+	Force *struct {
+		Seg   int               `json:"seg"`
+		Types map[string]string `json:"types"`
+	} `json:"force,omitempty"`
+	Probe *struct {
+		Finding string    `json:"finding"`
+		Step    int       `json:"step"`
+		Wrong   []specObs `json:"wrong"`
+	} `json:"probe,omitempty"`
+}
+
+// sparseDownSample: the behaviour down-samples, and some written row lacks a field of its measurement
+func sparseDownSample(h []specStep) bool {
+	has := false
+	fields := map[string]map[string]bool{}
+	var rows []specRow
+	for _, st := range h {
+		if st.A == "DownSample" {
+			has = true
+		}
+		if st.A == "Write" {
+			var rs []specRow
+			if json.Unmarshal(st.Args, &rs) == nil {
+				for _, r := range rs {
+					if fields[mstOr(r.M)] == nil {
+						fields[mstOr(r.M)] = map[string]bool{}
+					}
+					for _, f := range r.Fs {
+						fields[mstOr(r.M)][f] = true
+					}
+					rows = append(rows, r)
+				}
+			}
+		}
+	}
+	if !has {
+		return false
+	}
+	for _, r := range rows {
+		if len(r.Fs) < len(fields[mstOr(r.M)]) {
+			return true
+		}
+	}
+	return false
 }
 
 type caseResult struct {
@@ -72,6 +128,24 @@ type caseResult struct {
 	IndexInconclusive int                        `json:"index_inconclusive"`
 	Tev               [][]map[string]interface{} `json:"tev,omitempty"` // per reorganisation: spec-level fs event trace
 	Hang              bool                       `json:"hang,omitempty"`
+	// coverage of the reorganisations that really replaced files (C03)
+	Kinds    map[string]int `json:"kinds,omitempty"`     // LevelCompact | FullCompact | MergeOOO | DownSample
+	Methods  map[string]int `json:"methods,omitempty"`   // compactions per method (stream | nonstream | auto)
+	ToLevels map[string]int `json:"to_levels,omitempty"` // compactions per output level
+	Groups   map[string]int `json:"groups,omitempty"`    // level compactions per group size
+	Msts     map[string]int `json:"msts,omitempty"`      // replacements per number of measurements touched at once
+	Torn     int            `json:"torn"`                // images with a half-written temporary file or log
+	PreWrite int            `json:"prewrite"`            // images taken while the reorganisation was still writing its temporary files
+	DSPre    int            `json:"ds_pre"`              // down-sample images that must recover to the raw contents
+	DSPost   int            `json:"ds_post"`             // down-sample images that must recover to the down-sampled contents
+	Skips    int            `json:"skips"`
+}
+
+func bump(m *map[string]int, k string) {
+	if *m == nil {
+		*m = map[string]int{}
+	}
+	(*m)[k]++
 }
 
 // ---- deviation model "wal_replay_round_robin_from_0" (known finding F-C01-1) -------------------
@@ -173,8 +247,9 @@ const timeStep = int64(1e9)
 
 // concretisation of one abstract field: type chosen per case from the seed
 type fieldConc struct {
-	name string
-	typ  int32
+	name  string
+	typ   int32
+	plain bool // the abstract value is the stored integer itself (count_<field> columns of a down-sampled shard)
 }
 
 func (f fieldConc) fv(v int64) engx.FV {
@@ -211,6 +286,9 @@ func (f fieldConc) expString(v int64) string {
 	if v == 0 {
 		return "null"
 	}
+	if f.plain {
+		return fmt.Sprintf("%d", v)
+	}
 	switch f.typ {
 	case influx.Field_Type_Int:
 		return fmt.Sprintf("%d", v)
@@ -239,38 +317,91 @@ func (f fieldConc) req() engx.FieldReq {
 var fieldTypes = []int32{influx.Field_Type_Int, influx.Field_Type_Float, influx.Field_Type_String, influx.Field_Type_Boolean}
 
 type layoutConc struct {
-	fields map[string]fieldConc // abstract field name -> concrete
+	fields map[string]fieldConc // abstract field name -> concrete column read now
+	raw    map[string]fieldConc // abstract field name -> concrete field as written
 	order  []string             // abstract field names sorted
+	msts   []string             // measurements of the behaviour, sorted
+}
+
+// dsArgs are the arguments of a DownSample action: [interval, {field: call}]
+func dsArgs(raw json.RawMessage) (int64, map[string]string, error) {
+	var a []json.RawMessage
+	if err := json.Unmarshal(raw, &a); err != nil || len(a) != 2 {
+		return 0, nil, fmt.Errorf("bad DownSample args %s", string(raw))
+	}
+	var iv int64
+	calls := map[string]string{}
+	if err := json.Unmarshal(a[0], &iv); err != nil {
+		return 0, nil, err
+	}
+	if err := json.Unmarshal(a[1], &calls); err != nil {
+		return 0, nil, err
+	}
+	return iv, calls, nil
 }
 
 func newLayoutConc(h []specStep, rng *rand.Rand) *layoutConc {
 	names := map[string]bool{}
+	msts := map[string]bool{}
+	numeric := map[string]bool{} // fields aggregated by min / max: the concretisation must keep the order of the abstract values
 	for _, st := range h {
 		for _, o := range st.Exp {
 			for f := range o.V {
 				names[f] = true
 			}
+			msts[mstOr(o.M)] = true
+		}
+		if st.A == "DownSample" {
+			if _, calls, err := dsArgs(st.Args); err == nil {
+				for f, c := range calls {
+					if c == "min" || c == "max" {
+						numeric[f] = true
+					}
+				}
+			}
 		}
 	}
-	c := &layoutConc{fields: map[string]fieldConc{}}
+	c := &layoutConc{fields: map[string]fieldConc{}, raw: map[string]fieldConc{}}
 	for f := range names {
 		c.order = append(c.order, f)
 	}
+	for m := range msts {
+		c.msts = append(c.msts, m)
+	}
 	sort.Strings(c.order)
+	sort.Strings(c.msts)
 	for i, f := range c.order {
 		typ := fieldTypes[rng.Intn(len(fieldTypes))]
 		if i == 0 && rng.Intn(2) == 0 {
 			typ = influx.Field_Type_Int // unique values discriminate best; keep one int field often
 		}
+		if numeric[f] && typ != influx.Field_Type_Int && typ != influx.Field_Type_Float {
+			typ = []int32{influx.Field_Type_Int, influx.Field_Type_Float}[rng.Intn(2)]
+		}
 		c.fields[f] = fieldConc{name: f, typ: typ}
+		c.raw[f] = c.fields[f]
 	}
 	return c
+}
+
+// downSampled returns the concretisation after a down-sample: field f is read from column <call>_<f>.
+func (c *layoutConc) downSampled(calls map[string]string) *layoutConc {
+	d := &layoutConc{fields: map[string]fieldConc{}, raw: c.raw, order: c.order, msts: c.msts}
+	for _, f := range c.order {
+		call := calls[f]
+		fc := fieldConc{name: call + "_" + c.raw[f].name, typ: c.raw[f].typ}
+		if call == "count" {
+			fc.typ, fc.plain = influx.Field_Type_Int, true
+		}
+		d.fields[f] = fc
+	}
+	return d
 }
 
 func seriesTags(s string) [][2]string { return [][2]string{{"host", s}, {"zone", "z"}} }
 func seriesKey(s string) string       { return "host=" + s + ",zone=z" }
 
-// expected rows for a read of fields fs over [tmin,tmax]: canonical strings "series|time|v1|v2"
+// expected rows for a read of fields fs over [tmin,tmax]: canonical strings "measurement|series|time|v1|v2"
 func expectRows(c *layoutConc, exp []specObs, fs []string, tmin, tmax int64) []string {
 	var out []string
 	for _, o := range exp {
@@ -279,7 +410,7 @@ func expectRows(c *layoutConc, exp []specObs, fs []string, tmin, tmax int64) []s
 			continue
 		}
 		any := false
-		parts := []string{seriesKey(o.S), fmt.Sprintf("%d", t)}
+		parts := []string{mstOr(o.M), seriesKey(o.S), fmt.Sprintf("%d", t)}
 		for _, f := range fs {
 			v := o.V[f]
 			if v != 0 {
@@ -295,69 +426,82 @@ func expectRows(c *layoutConc, exp []specObs, fs []string, tmin, tmax int64) []s
 	return out
 }
 
-// readCheck runs one read and compares it; returns "" when equal.
+// readCheck runs one read (of every measurement of the behaviour) and compares it; returns "" when equal.
 func readCheck(e *engx.Env, c *layoutConc, exp []specObs, fs []string, tmin, tmax int64, asc bool) string {
 	var reqs []engx.FieldReq
 	for _, f := range fs {
 		reqs = append(reqs, c.fields[f].req())
 	}
-	rows, err := e.Read("m", reqs, []string{"host", "zone"}, tmin, tmax, asc)
-	if err != nil && strings.Contains(err.Error(), "slice bounds out of range [4294967288:0]") {
-		// known finding F-C02-2: ReadMetaBlock fails (EINVAL) and ChunkMeta goes on to index the empty
-		// block; the query fails with a recovered panic. Intermittent; a retry must succeed.
-		knownReadErrors++
-		rows, err = e.Read("m", reqs, []string{"host", "zone"}, tmin, tmax, asc)
-	}
-	if err != nil {
-		return "read error: " + err.Error()
-	}
 	var got []string
-	lastT := map[string]int64{}
-	for _, r := range rows {
-		parts := []string{r.Series, fmt.Sprintf("%d", r.Time)}
-		for i, f := range fs {
-			parts = append(parts, c.fields[f].cellString(r.Vals[i]))
+	for _, mst := range c.msts {
+		rows, err := e.Read(mst, reqs, []string{"host", "zone"}, tmin, tmax, asc)
+		if err != nil && strings.Contains(err.Error(), "slice bounds out of range [4294967288:0]") {
+			// known finding F-C02-2: ReadMetaBlock fails (EINVAL) and ChunkMeta goes on to index the empty
+			// block; the query fails with a recovered panic. Intermittent; a retry must succeed.
+			knownReadErrors++
+			rows, err = e.Read(mst, reqs, []string{"host", "zone"}, tmin, tmax, asc)
 		}
-		got = append(got, strings.Join(parts, "|"))
-		if lt, ok := lastT[r.Series]; ok {
-			if (asc && r.Time <= lt) || (!asc && r.Time >= lt) {
-				dump := ""
-				for _, x := range rows {
-					dump += fmt.Sprintf(" [%s %d", x.Series, (x.Time-timeBase)/timeStep)
-					for i, f := range fs {
-						dump += " " + c.fields[f].cellString(x.Vals[i])
+		if err != nil {
+			return "read error: " + err.Error()
+		}
+		lastT := map[string]int64{}
+		for _, r := range rows {
+			parts := []string{mst, r.Series, fmt.Sprintf("%d", r.Time)}
+			for i, f := range fs {
+				parts = append(parts, c.fields[f].cellString(r.Vals[i]))
+			}
+			got = append(got, strings.Join(parts, "|"))
+			if lt, ok := lastT[r.Series]; ok {
+				if (asc && r.Time <= lt) || (!asc && r.Time >= lt) {
+					dump := ""
+					for _, x := range rows {
+						dump += fmt.Sprintf(" [%s %d", x.Series, (x.Time-timeBase)/timeStep)
+						for i, f := range fs {
+							dump += " " + c.fields[f].cellString(x.Vals[i])
+						}
+						dump += "]"
 					}
-					dump += "]"
-				}
-				if idx, ok := e.Shard().GetIndexBuilder().GetPrimaryIndex().(*tsi.MergeSetIndex); ok {
-					for _, sname := range []string{"s1", "s2"} {
-						rr := engx.MakeRows([]engx.Pt{{Mst: "m", Tags: seriesTags(sname), Time: 1}})
-						sid, _ := idx.GetSeriesIdBySeriesKey(rr[0].IndexKey)
-						sq := e.Store().Sequencer()
-						lf, rc := sq.Get("m_0000", sid)
-						dump += fmt.Sprintf(" {seq %s sid=%d lastFlush=%d rows=%d loading=%v}", sname, sid, (lf-timeBase)/timeStep, rc, sq.IsLoading())
-						sq.UnRef()
-					}
-				}
-				for _, ord := range []bool{true, false} {
-					if fsx, ok := e.Shard().GetTSSPFiles("m_0000", ord); ok && fsx != nil {
-						for _, f := range fsx.Files() {
-							mn, mx, _ := f.MinMaxTime()
-							dump += fmt.Sprintf(" {file %s order=%v t=[%d,%d]}", filepath.Base(f.Path()), ord, (mn-timeBase)/timeStep, (mx-timeBase)/timeStep)
+					if idx, ok := e.Shard().GetIndexBuilder().GetPrimaryIndex().(*tsi.MergeSetIndex); ok {
+						for _, sname := range []string{"s1", "s2"} {
+							rr := engx.MakeRows([]engx.Pt{{Mst: mst, Tags: seriesTags(sname), Time: 1}})
+							sid, _ := idx.GetSeriesIdBySeriesKey(rr[0].IndexKey)
+							sq := e.Store().Sequencer()
+							lf, rc := sq.Get(mst+"_0000", sid)
+							dump += fmt.Sprintf(" {seq %s sid=%d lastFlush=%d rows=%d loading=%v}", sname, sid, (lf-timeBase)/timeStep, rc, sq.IsLoading())
+							sq.UnRef()
 						}
 					}
+					dump += fileDump(e, mst)
+					return fmt.Sprintf("rows of series %s of measurement %s not strictly sorted by time (asc=%v): %d after %d; all rows:%s", r.Series, mst, asc, r.Time, lt, dump)
 				}
-				return fmt.Sprintf("rows of series %s not strictly sorted by time (asc=%v): %d after %d; all rows:%s", r.Series, asc, r.Time, lt, dump)
 			}
+			lastT[r.Series] = r.Time
 		}
-		lastT[r.Series] = r.Time
 	}
 	sort.Strings(got)
 	want := expectRows(c, exp, fs, tmin, tmax)
 	if strings.Join(got, "\n") != strings.Join(want, "\n") {
-		return fmt.Sprintf("read fields=%v range=[%d,%d] asc=%v\n  got:  %v\n  want: %v", fs, (tmin-timeBase)/timeStep, (tmax-timeBase)/timeStep, asc, got, want)
+		cols := []string{}
+		for _, f := range fs {
+			cols = append(cols, f+"="+c.fields[f].name)
+		}
+		return fmt.Sprintf("read fields=%v range=[%d,%d] asc=%v\n  got:  %v\n  want: %v", cols, (tmin-timeBase)/timeStep, (tmax-timeBase)/timeStep, asc, got, want)
 	}
 	return ""
+}
+
+func fileDump(e *engx.Env, mst string) string {
+	dump := ""
+	for _, ord := range []bool{true, false} {
+		if fsx, ok := e.Shard().GetTSSPFiles(mst+"_0000", ord); ok && fsx != nil {
+			for _, f := range fsx.Files() {
+				mn, mx, _ := f.MinMaxTime()
+				dump += fmt.Sprintf(" {file %s order=%v t=[%d,%d]}", filepath.Base(f.Path()), ord, (mn-timeBase)/timeStep, (mx-timeBase)/timeStep)
+			}
+			immutable.UnrefFiles(fsx.Files()...)
+		}
+	}
+	return dump
 }
 
 func describeEvent(events []crashfs.Event, n int) string {
@@ -371,6 +515,7 @@ func describeEvent(events []crashfs.Event, n int) string {
 
 var knownReadErrors int
 
+// withCompaction is the reorganisation switch of the concurrent driver (view.go).
 func withCompaction(e *engx.Env, f func(st *immutable.MmsTables) error) error {
 	sh := e.Shard()
 	sh.EnableCompAndMerge()
@@ -384,10 +529,76 @@ func withCompaction(e *engx.Env, f func(st *immutable.MmsTables) error) error {
 	return err
 }
 
-func setSmallCompactionGroups() {
+func setCompactionGroups(n int) {
 	for i := range immutable.LeveLMinGroupFiles {
-		immutable.LeveLMinGroupFiles[i] = 2
+		immutable.LeveLMinGroupFiles[i] = n
 	}
+}
+
+func setSmallCompactionGroups() { setCompactionGroups(2) }
+
+// setCompactionMethod makes compactToLevel take the method of the action ([data] compaction-method) and
+// returns the name of the method the engine's own decision function now selects.
+func setCompactionMethod(meth string, dflt int) string {
+	switch meth {
+	case "stream":
+		immutable.SetMergeFlag4TsStore(1)
+	case "nonstream":
+		immutable.SetMergeFlag4TsStore(2)
+	default:
+		immutable.SetMergeFlag4TsStore(int32(dflt))
+	}
+	if immutable.GetMergeFlag4TsStore() == 0 {
+		return "auto"
+	}
+	if immutable.NonStreamingCompaction(immutable.FilesInfo{}) {
+		return "nonstream"
+	}
+	return "stream"
+}
+
+// evClass refines the recorder's classification: the down-sample log lives in <shard>/downsample_log/
+func evClass(ev crashfs.Event) string {
+	if strings.Contains(ev.Path, "/"+immutable.DownSampleLogDir+"/") {
+		return "dslog"
+	}
+	return ev.Class
+}
+
+var reTsspName = regexp.MustCompile(`[0-9a-fA-F]{8}-[0-9a-fA-F]{4}-[0-9a-fA-F]{8}\.tssp`)
+
+func tsspLevel(base string) string {
+	// <seq>-<level>-<extent>.tssp[.init]
+	p := strings.Split(base, "-")
+	if len(p) >= 2 {
+		var l int
+		if _, err := fmt.Sscanf(p[1], "%d", &l); err == nil {
+			return fmt.Sprintf("L%d", l)
+		}
+	}
+	return "L?"
+}
+
+// mstOfPath returns the measurement directory of a data file path (.../tssp/<measurement>/[out-of-order/]<file>)
+func mstOfPath(p string) string {
+	parts := strings.Split(p, "/")
+	for i, x := range parts {
+		if x == immutable.TsspDirName && i+1 < len(parts) {
+			return parts[i+1]
+		}
+	}
+	return "?"
+}
+
+// reorg describes one reorganisation step of a behaviour for the crash driver
+type reorg struct {
+	kind string       // LevelCompact | FullCompact | MergeOOO | DownSample
+	pre  *layoutConc  // concretisation and contents before the reorganisation
+	preX []specObs
+	post *layoutConc  // ... and after it (equal to pre unless the reorganisation is a down-sample)
+	posX []specObs
+	meth string
+	run  func(e *reorgEnv) error
 }
 
 func runLayoutCase(lc *layoutCase, root string) (res caseResult) {
@@ -409,10 +620,26 @@ func runLayoutCase(lc *layoutCase, root string) (res caseResult) {
 		wp = 2 + rng.Intn(2)
 	}
 	opts := engx.Options{WalParts: wp, MaxRowsPerSegment: []int{0, 2, 3, 5}[rng.Intn(4)], CompactionMethod: rng.Intn(3)}
+	if sparseDownSample(lc.Hist) {
+		// open finding F-C03-3: the down-sample loses values of a sparse column in a chunk of several segments
+		// (reproduced by the directed probe); generated behaviours keep such chunks in one segment
+		opts.MaxRowsPerSegment = 0
+	}
 	if v := os.Getenv("VH_SEG"); v != "" {
 		fmt.Sscanf(v, "%d", &opts.MaxRowsPerSegment)
 	}
-	e, err := engx.Open(dir, opts)
+	if lc.Force != nil {
+		opts.MaxRowsPerSegment = lc.Force.Seg
+		for f, t := range lc.Force.Types {
+			typ := map[string]int32{"int": influx.Field_Type_Int, "float": influx.Field_Type_Float, "string": influx.Field_Type_String, "bool": influx.Field_Type_Boolean}[t]
+			if fc, ok := conc.raw[f]; ok && typ != 0 {
+				fc.typ = typ
+				conc.raw[f], conc.fields[f] = fc, fc
+			}
+		}
+	}
+	metaLevel := 0 // down-sample level of the shard as ts-meta knows it
+	e, err := openReorgEnv(dir, opts, metaLevel)
 	if err != nil {
 		res.Infra = "open: " + err.Error()
 		return
@@ -427,77 +654,210 @@ func runLayoutCase(lc *layoutCase, root string) (res caseResult) {
 	e.NoSettle = lc.NoSettle
 	tmin, tmax := timeBase-timeStep, timeBase+100*timeStep
 	seen := map[string]bool{}
+	written := map[string]map[string]bool{} // measurement -> abstract fields written to it so far
 	wm := newWalModel(opts.WalParts)
 	var unflushed [][]specRow
-	// doCompact runs one reorganisation; in crash mode (C03) it freezes an image after every data
-	// mutation of the reorganisation, then restarts on each image and requires the contents the
-	// shard had before the reorganisation began.
-	doCompact := func(st specStep, f func(s *immutable.MmsTables) error) error {
+	var prevExp []specObs
+
+	// fullCheck compares the complete contents (asc, and desc unless quick) against (c, exp); when other is
+	// given, the columns of that concretisation must hold nothing at all (no mixture of raw and down-sampled files)
+	fullCheck := func(e2 *reorgEnv, c *layoutConc, exp []specObs, other *layoutConc, desc bool) string {
+		d := readCheck(e2.Env, c, exp, c.order, tmin, tmax, true)
+		if d == "" && desc {
+			d = readCheck(e2.Env, c, exp, c.order, tmin, tmax, false)
+		}
+		if d == "" && other != nil {
+			if d2 := readCheck(e2.Env, other, nil, other.order, tmin, tmax, true); d2 != "" {
+				d = "columns of the other file set are visible as well: " + d2
+			}
+		}
+		return d
+	}
+
+	// doReorg runs one reorganisation; in crash mode (C03) it freezes an image after every data
+	// mutation of the reorganisation (and one with a half-written file after every write of a temporary
+	// file or log), then restarts on each image and requires the contents the protocol defines.
+	doReorg := func(st specStep, ro reorg) error {
 		if !lc.Crash {
-			return withCompaction(e, f)
+			return ro.run(e)
 		}
 		rec := crashfs.Install()
 		imgRoot := dir + "-img"
 		defer os.RemoveAll(imgRoot)
 		type img struct {
-			dir string
-			n   int
+			dir  string
+			n    int
+			torn string // "" or the path (relative to dir) of the file cut short in this image
 		}
 		var imgs []img
+		var metaAt []int // event numbers after which the level was reported to ts-meta
+		lastN := 0
+		logMst := map[string]string{}            // compact log path -> measurement it names (read when it is written)
+		logFiles := map[string]map[string]bool{} // compact log path -> data files it names (final names)
+		e.Meta.OnUpdate = func() { metaAt = append(metaAt, lastN) }
 		rec.Start(dir)
 		rec.After = func(ev crashfs.Event) {
 			if ev.N == 0 || ev.Class == "wal" {
 				return
 			}
+			lastN = ev.N
 			d := filepath.Join(imgRoot, fmt.Sprintf("i%d", ev.N))
 			if engx.CopyTree(dir, d) == nil {
-				imgs = append(imgs, img{d, ev.N})
+				imgs = append(imgs, img{dir: d, n: ev.N})
+			}
+			cls := evClass(ev)
+			if ev.Op == "write" && cls == "clog" {
+				if b, err := os.ReadFile(filepath.Join(dir, ev.Path)); err == nil {
+					for _, m := range conc.msts {
+						if strings.Contains(string(b), m+"_0000") {
+							logMst[ev.Path] = m + "_0000"
+						}
+					}
+					names := map[string]bool{}
+					for _, n := range reTsspName.FindAllString(string(b), -1) {
+						names[n] = true
+					}
+					logFiles[ev.Path] = names
+				}
+			}
+			if ev.Op == "write" && ev.Size > 1 && (cls == "init" || cls == "clog" || cls == "dslog") {
+				// the process dies inside this write: the file keeps a prefix of what the write appended
+				dt := filepath.Join(imgRoot, fmt.Sprintf("t%d", ev.N))
+				if engx.CopyTree(dir, dt) == nil {
+					fp := filepath.Join(dt, ev.Path)
+					if fi, err := os.Stat(fp); err == nil && fi.Size() > 0 {
+						cut := fi.Size() - int64(ev.Size) + int64(rng.Intn(ev.Size))
+						if cut < 0 {
+							cut = 0
+						}
+						if os.Truncate(fp, cut) == nil {
+							imgs = append(imgs, img{dir: dt, n: ev.N, torn: ev.Path})
+						}
+					}
+				}
 			}
 		}
-		cerr := withCompaction(e, f)
+		cerr := ro.run(e)
 		events := rec.Stop()
+		e.Meta.OnUpdate = nil
 		if cerr != nil {
 			return cerr
 		}
 		if os.Getenv("VH_DEBUG_EV") != "" {
 			for _, ev := range events {
 				if ev.N > 0 {
-					fmt.Fprintf(os.Stderr, "EV %3d %-8s %-5s %s -> %s\n", ev.N, ev.Op, ev.Class, ev.Path, ev.To)
+					fmt.Fprintf(os.Stderr, "EV %3d %-8s %-5s %s -> %s\n", ev.N, ev.Op, evClass(ev), ev.Path, ev.To)
 				}
 			}
 		}
+		// spec-level trace of the reorganisation (Mode C) and the protocol positions the verdicts need
 		var tev []map[string]interface{}
+		logComplete := 0 // number of the event that completed the intent log (its last write)
+		firstLog := 0
+		touched := map[string]bool{}
+		lastLogOf := map[string]string{}
+		isMeta := func(n int) bool {
+			for _, m := range metaAt {
+				if m == n {
+					return true
+				}
+			}
+			return false
+		}
 		for _, ev := range events {
 			if ev.N == 0 {
 				continue
 			}
 			base := filepath.Base(ev.Path)
+			cls := evClass(ev)
+			isLog := cls == "clog" || cls == "dslog"
+			nb := len(tev)
+			emst := mstOfPath(ev.Path)
+			if cls == "clog" {
+				emst = logMst[ev.Path]
+			}
 			switch {
-			case ev.Class == "init" && ev.Op == "create":
-				tev = append(tev, map[string]interface{}{"ev": "WriteNew", "f": base})
-			case ev.Class == "clog" && ev.Op == "create":
+			case cls == "init" && ev.Op == "create":
+				tev = append(tev, map[string]interface{}{"ev": "CreateNew", "f": mstOfPath(ev.Path) + "/" + base})
+			case cls == "init" && ev.Op == "write":
+				tev = append(tev, map[string]interface{}{"ev": "WriteData", "f": mstOfPath(ev.Path) + "/" + base})
+			case cls == "init" && ev.Op == "sync":
+				tev = append(tev, map[string]interface{}{"ev": "SyncNew", "f": mstOfPath(ev.Path) + "/" + base})
+			case isLog && ev.Op == "create":
 				tev = append(tev, map[string]interface{}{"ev": "LogCreate"})
-			case ev.Class == "clog" && ev.Op == "write":
+				if firstLog == 0 {
+					firstLog = ev.N
+				}
+			case isLog && ev.Op == "write":
 				tev = append(tev, map[string]interface{}{"ev": "LogWrite"})
-			case ev.Class == "clog" && ev.Op == "sync":
+				logComplete = ev.N
+			case isLog && ev.Op == "sync":
 				tev = append(tev, map[string]interface{}{"ev": "LogSync"})
-			case ev.Class == "clog" && ev.Op == "remove":
+			case isLog && ev.Op == "remove":
 				tev = append(tev, map[string]interface{}{"ev": "LogRemove"})
-			case ev.Op == "rename" && ev.Class == "init":
-				tev = append(tev, map[string]interface{}{"ev": "RenameNew", "f": base})
-			case ev.Op == "rename" && ev.Class == "tssp":
+			case ev.Op == "rename" && cls == "init":
+				tev = append(tev, map[string]interface{}{"ev": "RenameNew", "f": mstOfPath(ev.Path) + "/" + base})
+				touched[mstOfPath(ev.Path)] = true
+				if ro.kind != "MergeOOO" && ro.kind != "DownSample" {
+					bump(&res.ToLevels, tsspLevel(base))
+				}
+			case ev.Op == "rename" && cls == "tssp":
 				tev = append(tev, map[string]interface{}{"ev": "DeleteOld", "f": base})
-			case ev.Op == "remove" && ev.Class == "tssp":
+			case ev.Op == "remove" && cls == "tssp":
 				tev = append(tev, map[string]interface{}{"ev": "DeleteOld", "f": base})
-			case ev.Op == "remove" && ev.Class == "init":
+			case ev.Op == "remove" && cls == "init":
 				tev = append(tev, map[string]interface{}{"ev": "DeleteOld", "f": base})
+			}
+			// the replacement (= its log) the event belongs to: several groups of one measurement are compacted
+			// concurrently, each under its own log
+			grp := ""
+			switch {
+			case cls == "clog" || cls == "dslog":
+				grp = ev.Path
+			case strings.Contains(ev.Path, "/out-of-order/") && !strings.HasSuffix(ev.Path, ".init"):
+				grp = lastLogOf[emst] // the merge's tail: its out-of-order inputs are not named in the log
+			default:
+				fin := strings.TrimSuffix(base, ".init")
+				for lp, names := range logFiles {
+					if logMst[lp] == emst && names[fin] {
+						grp = lp
+					}
+				}
+			}
+			for k := nb; k < len(tev); k++ {
+				tev[k]["m"] = emst
+				tev[k]["g"] = grp
+			}
+			if cls == "clog" {
+				lastLogOf[logMst[ev.Path]] = ev.Path
+			}
+			if isMeta(ev.N) {
+				tev = append(tev, map[string]interface{}{"ev": "MetaUpdate"})
 			}
 		}
 		if len(tev) > 0 {
+			proto := "compact"
+			if ro.kind == "DownSample" {
+				proto = "ds"
+			}
+			tev = append([]map[string]interface{}{{"ev": "Proto", "proto": proto, "kind": ro.kind}}, tev...)
 			res.Tev = append(res.Tev, tev)
 			res.Reorgs++
+			bump(&res.Kinds, ro.kind)
+			bump(&res.Msts, fmt.Sprintf("%d", len(touched)))
+			if ro.kind == "LevelCompact" || ro.kind == "FullCompact" {
+				bump(&res.Methods, ro.meth)
+			}
+			if ro.kind == "LevelCompact" {
+				bump(&res.Groups, fmt.Sprintf("%d", immutable.LeveLMinGroupFiles[0]))
+			}
+		}
+		liveLevel := metaLevel
+		if len(metaAt) > 0 {
+			liveLevel = 1
 		}
 		if len(imgs) == 0 {
+			metaLevel = liveLevel
 			return nil
 		}
 		// stop the live engine, set its tree aside, restart on every image
@@ -509,8 +869,8 @@ func runLayoutCase(lc *layoutCase, root string) (res caseResult) {
 		if err := os.Rename(dir, live); err != nil {
 			return err
 		}
-		restart := func(label string) (*engx.Env, bool) {
-			e2, err := engx.Open(dir, opts)
+		restart := func(label string, level int) (*reorgEnv, bool) {
+			e2, err := openReorgEnv(dir, opts, level)
 			if err != nil {
 				if strings.Contains(err.Error(), "cannot open index") {
 					res.IndexInconclusive++
@@ -526,7 +886,37 @@ func runLayoutCase(lc *layoutCase, root string) (res caseResult) {
 			if !res.OK {
 				break
 			}
-			label := fmt.Sprintf("step %d (%s): crash after fs event %d of the reorganisation (%v)", res.Step, st.A, im.n, describeEvent(events, im.n))
+			// which contents does the protocol define for a crash here?
+			wantC, wantX, otherC := ro.pre, ro.preX, (*layoutConc)(nil)
+			level := metaLevel
+			if ro.kind == "DownSample" {
+				otherC = ro.post
+				// the down-sampled contents iff the log was complete when the process died
+				if logComplete > 0 && (im.n > logComplete || (im.n == logComplete && im.torn == "")) {
+					wantC, wantX, otherC = ro.post, ro.posX, ro.pre
+					res.DSPost++
+				} else {
+					res.DSPre++
+				}
+				for _, m := range metaAt {
+					if m < im.n { // the image of event m was frozen before the report that followed it
+						level = 1
+					}
+				}
+			}
+			if im.torn != "" {
+				res.Torn++
+			}
+			if firstLog == 0 || im.n < firstLog {
+				res.PreWrite++
+			}
+			what := describeEvent(events, im.n)
+			if im.torn != "" {
+				what = "in the middle of " + what + " (file cut short)"
+			} else {
+				what = "after " + what
+			}
+			label := fmt.Sprintf("step %d (%s %s): crash %s, fs event %d of the reorganisation", res.Step, st.A, string(st.Args), what, im.n)
 			if err := engx.RestoreImage(im.dir, dir); err != nil {
 				res.Infra = "restore: " + err.Error()
 				break
@@ -545,20 +935,17 @@ func runLayoutCase(lc *layoutCase, root string) (res caseResult) {
 					}
 				}
 			}
-			e2, ok := restart(label)
+			e2, ok := restart(label, level)
 			rec.Stop()
 			if !ok {
 				break
 			}
 			if e2 != nil {
-				d := readCheck(e2, conc, st.Exp, conc.order, tmin, tmax, true)
-				if d == "" {
-					d = readCheck(e2, conc, st.Exp, conc.order, tmin, tmax, false)
-				}
+				d := fullCheck(e2, wantC, wantX, otherC, true)
 				_ = e2.Close()
 				if d != "" {
 					res.OK = false
-					res.Detail = label + ": contents after restart differ from the contents before the reorganisation: " + d
+					res.Detail = label + ": contents after restart differ from the contents the protocol defines for this crash point: " + d
 					break
 				}
 			}
@@ -567,12 +954,12 @@ func runLayoutCase(lc *layoutCase, root string) (res caseResult) {
 					continue
 				}
 				res.Nested++
-				e3, ok := restart(label + ", second crash inside recovery")
+				e3, ok := restart(label+", second crash inside recovery", level)
 				if !ok {
 					break
 				}
 				if e3 != nil {
-					d := readCheck(e3, conc, st.Exp, conc.order, tmin, tmax, true)
+					d := fullCheck(e3, wantC, wantX, otherC, false)
 					_ = e3.Close()
 					if d != "" {
 						res.OK = false
@@ -586,14 +973,28 @@ func runLayoutCase(lc *layoutCase, root string) (res caseResult) {
 		if err := os.Rename(live, dir); err != nil {
 			return err
 		}
+		metaLevel = liveLevel
 		var err error
-		e, err = engx.Open(dir, opts)
+		e, err = openReorgEnv(dir, opts, metaLevel)
 		if err != nil {
 			e = nil
 			return fmt.Errorf("reopen live tree: %w", err)
 		}
 		setSmallCompactionGroups()
 		return nil
+	}
+	compaction := func(st specStep, kind, meth string, f func(s *immutable.MmsTables) error) error {
+		real := setCompactionMethod(meth, opts.CompactionMethod)
+		if meth != "" && meth != "auto" && real != meth {
+			return fmt.Errorf("compaction method %s requested, the engine selects %s", meth, real)
+		}
+		ro := reorg{kind: kind, pre: conc, preX: st.Exp, post: conc, posX: st.Exp, meth: real,
+			run: func(e *reorgEnv) error { return withReorg(e, f) }}
+		err := doReorg(st, ro)
+		if !lc.Crash && kind != "MergeOOO" {
+			bump(&res.Methods, real)
+		}
+		return err
 	}
 	for i, st := range lc.Hist {
 		res.Step = i
@@ -608,13 +1009,17 @@ func runLayoutCase(lc *layoutCase, root string) (res caseResult) {
 			var pts []engx.Pt
 			newSeries := false
 			for _, r := range rows {
-				p := engx.Pt{Mst: "m", Tags: seriesTags(r.S), Time: timeBase + r.T*timeStep}
+				p := engx.Pt{Mst: mstOr(r.M), Tags: seriesTags(r.S), Time: timeBase + r.T*timeStep}
+				if written[mstOr(r.M)] == nil {
+					written[mstOr(r.M)] = map[string]bool{}
+				}
 				for _, f := range r.Fs {
-					p.Fields = append(p.Fields, conc.fields[f].fv(r.V))
+					p.Fields = append(p.Fields, conc.raw[f].fv(r.V))
+					written[mstOr(r.M)][f] = true
 				}
 				pts = append(pts, p)
-				if !seen[r.S] {
-					seen[r.S] = true
+				if !seen[mstOr(r.M)+"/"+r.S] {
+					seen[mstOr(r.M)+"/"+r.S] = true
 					newSeries = true
 				}
 			}
@@ -642,34 +1047,81 @@ func runLayoutCase(lc *layoutCase, root string) (res caseResult) {
 			}
 			wm.flush(unflushed)
 			unflushed = nil
+		case "Skip":
+			res.Skips++
 		case "LevelCompact":
-			var a []int
+			// args: [level, method, group size] (older behaviours: [level])
+			var a []interface{}
 			_ = json.Unmarshal(st.Args, &a)
-			lvl := uint16(0)
+			lvl, meth, group := uint16(0), "", 2
 			if len(a) > 0 {
-				lvl = uint16(a[0])
+				if f, ok := a[0].(float64); ok {
+					lvl = uint16(f)
+				}
 			}
-			if err := doCompact(st, func(s *immutable.MmsTables) error { return s.LevelCompact(lvl, engx.ShardID) }); err != nil {
+			if len(a) > 1 {
+				meth, _ = a[1].(string)
+			}
+			if len(a) > 2 {
+				if f, ok := a[2].(float64); ok && f >= 2 {
+					group = int(f)
+				}
+			}
+			setCompactionGroups(group)
+			err := compaction(st, "LevelCompact", meth, func(s *immutable.MmsTables) error { return s.LevelCompact(lvl, engx.ShardID) })
+			setSmallCompactionGroups()
+			if err != nil {
 				res.OK, res.Detail = false, "LevelCompact: "+err.Error()
 				return
 			}
 		case "FullCompact":
-			if err := doCompact(st, func(s *immutable.MmsTables) error { return s.FullCompact(engx.ShardID) }); err != nil {
+			var a []string
+			_ = json.Unmarshal(st.Args, &a)
+			meth := ""
+			if len(a) > 0 {
+				meth = a[0]
+			}
+			if err := compaction(st, "FullCompact", meth, func(s *immutable.MmsTables) error { return s.FullCompact(engx.ShardID) }); err != nil {
 				res.OK, res.Detail = false, "FullCompact: "+err.Error()
 				return
 			}
 		case "MergeOOO":
-			if err := doCompact(st, func(s *immutable.MmsTables) error { return s.MergeOutOfOrder(engx.ShardID, true, true) }); err != nil {
+			if err := compaction(st, "MergeOOO", "", func(s *immutable.MmsTables) error { return s.MergeOutOfOrder(engx.ShardID, true, true) }); err != nil {
 				res.OK, res.Detail = false, "MergeOutOfOrder: "+err.Error()
 				return
 			}
+		case "DownSample":
+			iv, calls, err := dsArgs(st.Args)
+			if err != nil {
+				res.Infra = err.Error()
+				return
+			}
+			post := conc.downSampled(calls)
+			ro := reorg{kind: "DownSample", pre: conc, preX: prevExp, post: post, posX: st.Exp,
+				run: func(e *reorgEnv) error { return runDownSample(e, conc, written, iv, calls) }}
+			if err := doReorg(st, ro); err != nil {
+				res.OK, res.Detail = false, "DownSample: "+err.Error()
+				return
+			}
+			if !lc.Crash {
+				bump(&res.Kinds, "DownSample")
+				metaLevel = 1
+			}
+			// the raw columns are gone
+			if res.OK && e != nil {
+				if d := readCheck(e.Env, conc, nil, conc.order, tmin, tmax, true); d != "" {
+					res.OK, res.Detail = false, fmt.Sprintf("after step %d (DownSample %s): the raw columns still hold rows: %s", i, string(st.Args), d)
+					return
+				}
+			}
+			conc = post
 		case "Reopen":
 			if err := e.Close(); err != nil {
 				res.OK, res.Detail = false, "close: "+err.Error()
 				e = nil
 				return
 			}
-			e, err = engx.Open(dir, opts)
+			e, err = openReorgEnv(dir, opts, metaLevel)
 			if err != nil {
 				res.OK, res.Detail = false, "reopen: "+err.Error()
 				e = nil
@@ -681,9 +1133,9 @@ func runLayoutCase(lc *layoutCase, root string) (res caseResult) {
 			wm = newWalModel(opts.WalParts)
 			wm.flushed = pred
 			unflushed = nil
-			if d := readCheck(e, conc, st.Exp, conc.order, tmin, tmax, true); d != "" {
+			if d := readCheck(e.Env, conc, st.Exp, conc.order, tmin, tmax, true); d != "" && metaLevel == 0 {
 				// diverged from the specification: is it exactly the known replay-order defect?
-				if d2 := readCheck(e, conc, pred.obs(conc.order), conc.order, tmin, tmax, true); d2 == "" {
+				if d2 := readCheck(e.Env, conc, pred.obs(conc.order), conc.order, tmin, tmax, true); d2 == "" {
 					res.Known = "F-C01-1"
 					res.Detail = fmt.Sprintf("after step %d (Reopen) walparts=%d: recovered contents equal the round-robin-replay prediction, not the acknowledged order: %s", i, opts.WalParts, d)
 					return
@@ -698,8 +1150,11 @@ func runLayoutCase(lc *layoutCase, root string) (res caseResult) {
 		}
 		// shape drift (not a verdict): number of ordered / out-of-order files
 		if st.Shape != nil {
-			no := e.Store().GetTableFileNum("m_0000", true)
-			nu := e.Store().GetTableFileNum("m_0000", false)
+			no, nu := 0, 0
+			for _, m := range conc.msts {
+				no += e.Store().GetTableFileNum(m+"_0000", true)
+				nu += e.Store().GetTableFileNum(m+"_0000", false)
+			}
 			if no != st.Shape["no"] || nu != st.Shape["nu"] {
 				res.Drift++
 			}
@@ -730,20 +1185,28 @@ func runLayoutCase(lc *layoutCase, root string) (res caseResult) {
 		}
 		for _, ck := range checks {
 			res.Reads++
-			if d := readCheck(e, conc, st.Exp, ck.fs, ck.tmin, ck.tmax, ck.asc); d != "" {
+			if d := readCheck(e.Env, conc, st.Exp, ck.fs, ck.tmin, ck.tmax, ck.asc); d != "" {
+				if lc.Probe != nil && lc.Probe.Step == i {
+					if d2 := readCheck(e.Env, conc, lc.Probe.Wrong, conc.order, tmin, tmax, true); d2 == "" {
+						res.Known = lc.Probe.Finding
+						res.Detail = fmt.Sprintf("after step %d (%s %s): the contents equal the prediction of the finding's deviation model: %s", i, st.A, string(st.Args), d)
+						return
+					}
+				}
 				res.OK = false
 				types := []string{}
 				for _, f := range conc.order {
-					types = append(types, fmt.Sprintf("%s:%d", f, conc.fields[f].typ))
+					types = append(types, fmt.Sprintf("%s:%d", f, conc.raw[f].typ))
 				}
-				res.Detail = fmt.Sprintf("after step %d (%s) walparts=%d seg=%d compaction-method=%d types=%v: %s", i, st.A, opts.WalParts, opts.MaxRowsPerSegment, opts.CompactionMethod, types, d)
-				if lc.NoSettle && strings.Contains(d, "not strictly sorted") && orderedFilesOverlap(e) {
+				res.Detail = fmt.Sprintf("after step %d (%s %s) walparts=%d seg=%d compaction-method=%d types=%v: %s", i, st.A, string(st.Args), opts.WalParts, opts.MaxRowsPerSegment, immutable.GetMergeFlag4TsStore(), types, d)
+				if lc.NoSettle && strings.Contains(d, "not strictly sorted") && orderedFilesOverlap(e.Env) {
 					res.OK = true
 					res.Known = "F-C04-1"
 				}
 				return
 			}
 		}
+		prevExp = st.Exp
 	}
 	return
 }
@@ -771,7 +1234,11 @@ func replayLayout(args []string) int {
 			return 2
 		}
 		knownReadErrors = 0
-		r := withWatchdog(lc.ID, 120, func() caseResult { return runLayoutCase(&lc, root) })
+		limit := 120
+		if lc.Crash {
+			limit = 900 // hundreds of images are restored and re-opened
+		}
+		r := withWatchdog(lc.ID, limit, func() caseResult { return runLayoutCase(&lc, root) })
 		r.KnownReadErrors = knownReadErrors
 		if !r.OK {
 			bad++
